@@ -868,6 +868,7 @@ impl ReaderState {
             .verify_parent_tag(TAG_INVOKE, &[TAG_STATE, TAG_PARALLEL])
             .to_string();
         let mut invoke = Invoke::new();
+        invoke.doc_id = DOC_ID_COUNTER.fetch_add(1, Ordering::Relaxed);
 
         if let Some(type_opt) = attr.get(ATTR_TYPE) {
             invoke.type_name = self.create_source(type_opt.as_str());
